@@ -65,7 +65,16 @@ def build_module(ch):
     for s in range(nact):
         ln = ch.below(40)
         off = ch.below(mn * 65536 - ln + 1) if ch.below(2) else ch.below(64)
-        m.datas.append(('active', ('i32.const', off), bytes((s * 37 + i * 11 + 1) & 0xff for i in range(ln))))
+        data = bytes((s * 37 + i * 11 + 1) & 0xff for i in range(ln))
+        if s and ch.below(2):
+            off = max(m.datas[-1][1][1] + ch.below(9) - 4, 0) if m.datas[-1][1] is not None else off      # overlap the previous one
+            off = min(off, mn * 65536 - ln)
+        if ch.below(3) == 0 and ln > 1:
+            z = 1 + ch.below(ln - 1)
+            data = data[:ln - z] + bytes(z)                                 # trailing zero bytes
+        elif ch.below(6) == 0:
+            data = bytes(ln)
+        m.datas.append(('active', ('i32.const', off), data))
     npas = ch.below(3)
     for s in range(npas):
         ln = ch.below(64)
